@@ -127,6 +127,15 @@ pub fn judge_owned(x: &Vec<u8>, st: &mut Stats) -> Verdict {
                         return Err(Fail::new("owned-views-differ:v1", shape(x), entry, format!("{:?} {:?} {:?}", p1, a1, t1), format!("{:?} {:?} {:?}", p2, a2, t2)));
                     }
                 }
+                // clone and clone_from (onto a longer and onto a shorter owned header) give copies equal to the original
+                let long_text = format!("PROXY UNKNOWN {}\r\n", "z".repeat(90));
+                for target in [ppp::v1::Header::new("PROXY UNKNOWN\r\n", ppp::v1::Addresses::Unknown).to_owned(), ppp::v1::Header::new(long_text.as_str(), ppp::v1::Addresses::Unknown).to_owned(), o.clone()] {
+                    let mut t2: ppp::v1::Header<'_> = target;
+                    t2.clone_from(h);
+                    if !(t2 == *h && *h == t2) || t2.header != h.header || t2.addresses != h.addresses || t2.to_string() != h.to_string() {
+                        return Err(Fail::new("clone_from-differs:v1", shape(x), "Clone::clone_from", "a copy equal to the original", format!("original {:?} copy {:?}", h, t2)));
+                    }
+                }
                 snapshot = Some((h.header.to_string(), format!("{:?}", h.addresses)));
                 owned = Some(o);
             } else {
@@ -177,12 +186,39 @@ pub fn judge_owned(x: &Vec<u8>, st: &mut Stats) -> Verdict {
                         return Err(Fail::new("owned-views-differ:v2", shape2(x), entry, "same views", "views differ".to_string()));
                     }
                 }
+                // clone_from onto a longer / shorter owned header and onto the owned copy itself
+                {
+                    let mut long_bytes = crate::oracle::v2::SIG.to_vec();
+                    long_bytes.extend_from_slice(&[0x21, 0x31, 0x01, 0x2c]);
+                    long_bytes.extend(fill(0x51, 300));
+                    let mut short_bytes = crate::oracle::v2::SIG.to_vec();
+                    short_bytes.extend_from_slice(&[0x20, 0x00, 0, 0]);
+                    let mut targets: Vec<ppp::v2::Header<'_>> = vec![o.clone()];
+                    if let Ok(l) = ppp::v2::Header::try_from(&long_bytes[..]) {
+                        targets.push(l.to_owned());
+                    }
+                    if let Ok(sh) = ppp::v2::Header::try_from(&short_bytes[..]) {
+                        targets.push(sh.to_owned());
+                    }
+                    for mut t2 in targets {
+                        t2.clone_from(h);
+                        let same = t2 == *h && *h == t2 && t2.as_bytes() == h.as_bytes() && t2.len() == h.len() && t2.length() == h.length() && t2.tlv_bytes() == h.tlv_bytes() && t2.address_bytes() == h.address_bytes();
+                        if !same {
+                            return Err(Fail::new("clone_from-differs:v2", shape2(x), "Clone::clone_from", "a copy equal to the original with the same views", format!("original {} bytes, copy {} bytes", h.len(), t2.len())));
+                        }
+                    }
+                }
                 // decoded TLVs
                 if let Ok(items) = crate::engine::guard(|| h.tlvs().take(2000).collect::<Vec<_>>()) {
                     for it in items.into_iter().flatten() {
                         let ot = it.to_owned();
                         if !(ot == it && it == ot) || ot.kind != it.kind || ot.value != it.value || !matches!(ot.value, Cow::Owned(_)) || ot.len() != it.len() || ot.is_empty() != it.is_empty() {
                             return Err(Fail::new("owned-differs:tlv", shape2(x), "TypeLengthValue::to_owned()", "owned TLV == borrowed TLV, Cow::Owned", format!("borrowed {:?} owned {:?}", it.kind, ot.kind)));
+                        }
+                        let mut t3 = ppp::v2::TypeLengthValue::new(0xEEu8, &[1u8, 2, 3, 4, 5, 6, 7, 8, 9][..]).to_owned();
+                        t3.clone_from(&it);
+                        if !(t3 == it && it == t3) || t3.value.as_ref() != it.value.as_ref() || t3.len() != it.len() {
+                            return Err(Fail::new("clone_from-differs:tlv", shape2(x), "Clone::clone_from", "a copy equal to the original TLV", format!("original kind {} ({} bytes) copy kind {} ({} bytes)", it.kind, it.len(), t3.kind, t3.len())));
                         }
                         if owned_tlvs.len() < 64 {
                             owned_tlvs.push((it.kind, it.value.to_vec(), ot));
